@@ -151,7 +151,7 @@ class DiGraph:
                         if len(scc) == 1 and not trivial:
                             # check for triviality
                             n = scc[0]
-                            if n not in self._neighbors[n]:
+                            if n not in self._neighbors.get(n, ()):
                                 continue  # tivial -- ignore
                         utr = self._untransform_node
                         yield [utr(n) for n in scc]
